@@ -3,10 +3,10 @@
 # (VERIF_REPO=<worktree>), so several can run in parallel and /repo is never touched.
 D=$(realpath $1); TIER=${2:-quick}; N=$(basename $D)
 PROP=$(python3 -c "import json,sys;print(json.load(open('$D/meta.json'))['property'])")
-WT=/tmp/wt_try_${N}_$$
+WT=/tmp/wtt_${N}_$$
 git -C /repo worktree add -q --detach $WT HEAD || exit 2
 if ! git -C $WT apply "$D/patch.diff" 2>/dev/null; then echo "NEEDS-REBASE $N"; git -C /repo worktree remove --force $WT; exit 2; fi
-cd /verif && VERIF_REPO=$WT VERIF_PROCS=${VERIF_PROCS:-8} /venv/bin/python run.py "$PROP" --tier "$TIER" > /tmp/try_$N.out 2>&1; rc=$?
+cd /verif && VERIF_REPO=$WT VERIF_PROCS=${VERIF_PROCS:-8} /venv/bin/python run.py "$PROP" --tier "$TIER" > /verif/.scratch/try_$N.out 2>&1; rc=$?
 git -C /repo worktree remove --force $WT
-V=$(grep -h "^VIOLATION" /tmp/try_$N.out | head -2 | tr '\n' ' ')
-if [ $rc -eq 1 ]; then echo "CAUGHT $N ($PROP $TIER) $V"; elif [ $rc -eq 0 ]; then echo "MISSED $N ($PROP $TIER)"; else echo "HARNESS-ERROR rc=$rc $N"; tail -3 /tmp/try_$N.out; fi
+V=$(grep -h "^VIOLATION" /verif/.scratch/try_$N.out | head -2 | tr '\n' ' ')
+if [ $rc -eq 1 ]; then echo "CAUGHT $N ($PROP $TIER) $V"; elif [ $rc -eq 0 ]; then echo "MISSED $N ($PROP $TIER)"; else echo "HARNESS-ERROR rc=$rc $N"; tail -3 /verif/.scratch/try_$N.out; fi
